@@ -106,6 +106,8 @@ func history(rng *rand.Rand, out *Out, steps int, enf uint64) {
 			h.contractAttempt()
 		case k < 76:
 			h.pendingAttempt()
+		case k < 79:
+			h.inboxProbe()
 		case k < 93:
 			h.momentum()
 		case k < 97:
@@ -471,10 +473,21 @@ func (h *hist) contractAttempt() {
 	fr := h.nd.Ch.GetFrontierAccountStore(c)
 	i := rng.Intn(len(l))
 	j := i + rng.Intn(len(l)-i)
+	if i > 0 && rng.Intn(3) == 0 {
+		j = rng.Intn(i) // a send the contract has received BELOW that position, presented again as a competing block
+	}
 	at, err1 := fr.ByHeight(l[i].last)
 	what, err2 := fr.ByHeight(l[j].last)
 	if err1 != nil || err2 != nil || at == nil || what == nil || !at.IsReceiveBlock() || !what.IsReceiveBlock() {
 		h.out.Count("c04:contract-attempt-not-found")
+		return
+	}
+	if j < i {
+		// the position of receive #i with the from-hash of receive #j: at least one send is in line there (the one #i takes)
+		b, _ := h.nd.ContractReceiveAt(c, what.FromBlockHash, at.Previous(), what.Data)
+		_, code := h.apply(b, nil, false, "contract-receive-of-a-received-send-at-earlier-position")
+		h.out.Oracle(code != 0, "c04-contract-receive-accepted-iff-head-of-inbox", M{"contract": c.String(), "from": what.FromBlockHash.String(),
+			"offered": "already-received:below-the-position", "door": "apply-block", "position": b.Height, "is-head-of-inbox": false, "accepted": code == 0})
 		return
 	}
 	if i == j && rng.Intn(3) == 0 {
@@ -554,14 +567,36 @@ func (h *hist) pendingAttempt() {
 // producer may build it: the pool blocks listed in a random order the verifier accepts, sometimes only a per-account
 // prefix of them (hz/c04_listed.go). The listed order is the confirmation order.
 func (h *hist) momentum() {
-	before := h.nd.FrontierHeight()
 	if h.rng.Intn(3) == 0 {
+		h.momentumKind(momListed)
+	} else {
+		h.momentumKind(momOwn)
+	}
+}
+
+const (
+	momOwn             = iota // the node's own producer: sorted content, the worker's contract receives afterwards
+	momListed                 // another producer's listing, then the contract receives as the producer's worker makes them
+	momListedUndrained        // another producer's listing and nothing else: the sends to contracts it confirms stay IN LINE (inbox.go)
+)
+
+func (h *hist) momentumKind(kind int) {
+	before := h.nd.FrontierHeight()
+	switch kind {
+	case momListed:
 		unsorted, listed, err := h.nd.MomentumListed(h.rng, h.rng.Intn(3))
 		if err != nil {
 			h.out.Count("c04:listed-momentum-failed:" + err.Error())
 		}
 		h.countListing(unsorted, listed)
-	} else {
+	case momListedUndrained:
+		unsorted, listed, err := h.nd.MomentumListedUndrained(h.rng, 0)
+		if err != nil {
+			h.out.Count("c04:listed-momentum-failed:" + err.Error())
+		}
+		h.countListing(unsorted, listed)
+		h.out.Count("c04:momentum-listing:other-producer:receives-not-generated")
+	default:
 		h.nd.Momentum()
 	}
 	after := h.nd.FrontierHeight()
